@@ -81,6 +81,12 @@ static _Bool p_no_nul_before(const char *b, size_t n, size_t cap)
         return 1;
 }
 
+/* the 44-character command-name alphabet after case folding */
+static _Bool p_name_char(char ch)
+{
+        return (ch >= 'A' && ch <= 'Z') || (ch >= '0' && ch <= '9') || ch == '+' || ch == '#' || ch == '$' || ch == '@' || ch == '_' || ch == '%' || ch == '&';
+}
+
 static _Bool p_is_newline_ptr(const char *p)
 {
         return p == &h_crlf[0] || p == &h_crlf[1];
@@ -208,7 +214,7 @@ static _Bool inv_live(const struct cat_object *s)
         case CAT_STATE_PARSE_COMMAND_CHAR:
                 return s->index == 0 && s->cmd_type == CAT_CMD_TYPE_RUN;
         case CAT_STATE_UPDATE_COMMAND_STATE:
-                return s->index < g_ncmds && s->length >= 1 && s->cmd_type == CAT_CMD_TYPE_RUN;
+                return s->index < g_ncmds && s->length >= 1 && s->cmd_type == CAT_CMD_TYPE_RUN && p_name_char(s->current_char);
         case CAT_STATE_WAIT_READ_ACKNOWLEDGE:
                 return s->length >= 1 && s->cmd_type == CAT_CMD_TYPE_READ;
         case CAT_STATE_SEARCH_COMMAND:
